@@ -51,7 +51,11 @@ Pad(c) == IF Len(c) >= Len(mem) THEN SubSeq(c, 1, Len(mem)) ELSE c \o SubSeq(mem
 RdAt == [cache |-> IF Ev.retry THEN Pad(Ev.cache) ELSE mem, shadow |-> IF Ev.retry THEN Pad(Ev.shadow) ELSE mem,
          ext |-> IF IsT2(lay) THEN Ev.ext ELSE Size(mem), rsec |-> Ev.rsec, tsec |-> Ev.tsec, nf |-> rd.nf,
          tries |-> IF Ev.retry THEN rd.tries + 1 ELSE 0]
-BeginOk == IF Ev.retry THEN pc = "failed" /\ Ev.op = op /\ (op = "write" => Ev.msg = msg) ELSE pc = "idle"
+\* Ev.retry: the call is made on a tag object that was used before in this session - either the failed call is
+\* repeated, or the next call follows a completed one (read -> format -> write)
+BeginOk == IF Ev.retry THEN \/ pc = "failed" /\ Ev.op = op /\ (op = "write" => Ev.msg = msg)
+                            \/ pc = "done"
+           ELSE pc = "idle"
 
 GBeginW ==
     /\ IsEv("Begin") /\ Ev.op = "write" /\ BeginOk
@@ -116,7 +120,13 @@ GView ==
     /\ IsEv("View") /\ pc \in {"done", "crashed", "rejected", "cut", "failed"}
     /\ UNCHANGED <<mem, plans, k, pc, op, msg, last, rd>>
 
-Guarded == GBeginW \/ GBeginF \/ GCmd \/ GFault \/ GRet \/ GView
+\* between two calls the application touches tag.ndef: that may read the tag again (sector selects, no writes)
+GSelIdle ==
+    /\ IsEv("Cmd") /\ Ev.s = 1 /\ pc \in {"done", "failed"}
+    /\ rd' = [rd EXCEPT !.tsec = Ev.u, !.rsec = Ev.u]
+    /\ UNCHANGED <<mem, plans, k, pc, op, msg, last>>
+
+Guarded == GBeginW \/ GBeginF \/ GCmd \/ GSelIdle \/ GFault \/ GRet \/ GView
 
 \* ---- logged results ------------------------------------------------------------------------
 NSkip == Cardinality({a \in lay.skip : a < Size(lay.mem0)})
@@ -137,7 +147,7 @@ IsWrite == Ev.a = "Cmd" /\ Ev.s = 0
 InvP(n) ==
     \/ Relaxed(n)
     \/ CASE n = "CapSound"    -> Ev.a = "Begin" => CapSoundP(lay) /\ Ev.cap <= RefCapacity(lay)
-         [] n = "RejectEarly" -> pc' = "rejected" => k' = 0 /\ mem' = lay.mem0
+         [] n = "RejectEarly" -> pc' = "rejected" => k' = 0 /\ (rd'.tries = 0 => mem' = lay.mem0)
          [] n = "NoCrash"     -> pc' # "crashed"
          [] n = "RoundTrip"   -> (Ev.a = "Ret" /\ pc' = "done") => RoundTripP(lay, mem', op', msg')
          [] n = "Atomic"      -> IsWrite => AtomicP(lay, mem', op', msg')
@@ -147,7 +157,7 @@ InvP(n) ==
          [] n = "LockOneWay"  -> IsWrite => OneWayP(lay, mem', UnitAddrs(lay, Ev.u))
          \* what the reader believes is on the tag is on the tag: after a failed call, and when the call is repeated
          [] n = "Coherent"    -> /\ (Ev.a = "Ret" /\ Ev.res = "fail") => CoherentP(lay, mem', Ev.shadow)
-                                 /\ (Ev.a = "Begin" /\ Ev.retry) => CoherentP(lay, mem', Ev.shadow)
+                                 /\ (Ev.a = "Begin" /\ Ev.retry) => CoherentP(lay, mem', Pad(Ev.shadow))
          \* the sector the reader believes the tag is in is the sector the tag is in, whenever a call starts or ends
          [] n = "SectorSync"  -> (Ev.a \in {"Begin", "Ret"}) => Ev.rsec = Ev.tsec
 AllInv == \A i \in DOMAIN InvNames : InvP(InvNames[i])
